@@ -2,7 +2,7 @@
 """Confirms a sub-agent's mutant in a fresh scratch worktree of /repo (outside /repo and /verif) and, if it holds up,
 stores it under /verif/seeded/<id>/ (patch.diff, demo.py, meta.json).
 
-usage: tools/confirm_seeded.py <Cnn> <k> [--no-tests] [--round2|--round3]     (--round2: reads /tmp/mut/<Cnn>/_out2/*_<k>.*, stores seeded/<Cnn>-<k+2>; --round3: _out3, <k+4>)
+usage: tools/confirm_seeded.py <Cnn> <k> [--no-tests] [--roundN]     (--roundN: reads /tmp/mut/<Cnn>/_outN/*_<k>.*, stores seeded/<Cnn>-<k+2(N-1)>)
  checks: demo PASSes on the unchanged tree; patch applies; demo FAILs with the patch; the 165 baseline tests still pass.
 """
 import json
@@ -21,10 +21,10 @@ def sh(cmd, cwd=None, env=None, timeout=1800):
 
 def main():
     prop, k = sys.argv[1], sys.argv[2]
-    r2 = "--round2" in sys.argv
-    r3 = "--round3" in sys.argv
-    src = f"/tmp/mut/{prop}/_out" + ("3" if r3 else "2" if r2 else "")
-    sid = str(int(k) + (4 if r3 else 2 if r2 else 0))
+    rnd = next((int(a[len("--round"):]) for a in sys.argv if a.startswith("--round")), 1)
+    r2, r3 = rnd == 2, rnd == 3
+    src = f"/tmp/mut/{prop}/_out" + (str(rnd) if rnd > 1 else "")
+    sid = str(int(k) + 2 * (rnd - 1))
     wt = f"/tmp/scratch/confirm_{prop}_{k}"
     shutil.rmtree(wt, ignore_errors=True)
     sh(["git", "-C", "/repo", "worktree", "prune"])
@@ -67,7 +67,7 @@ def main():
             meta = json.load(open(os.path.join(src, f"meta_{k}.json")))
             meta_out = dict(property=prop, summary=meta.get("summary"), needs=meta.get("needs"), files=meta.get("files"),
                             notes=meta.get("notes"), origin="independent sub-agent given only the property text and a scratch worktree",
-                            confirmed_by=dict(cmd=f"tools/confirm_seeded.py {prop} {k}" + (" --round3" if r3 else " --round2" if r2 else ""), demo_on_unchanged_tree="exit 0 (PASS)",
+                            confirmed_by=dict(cmd=f"tools/confirm_seeded.py {prop} {k}" + (f" --round{rnd}" if rnd > 1 else ""), demo_on_unchanged_tree="exit 0 (PASS)",
                                               demo_with_patch=f"exit {log.get('demo_mut_rc')} (FAIL)", baseline_tests_with_patch="all 165 baseline tests pass" if log.get("tests_pass") else "not run",
                                               demo_output_with_patch=log.get("demo_mut_tail", "")[-200:]))
             json.dump(meta_out, open(os.path.join(dst, "meta.json"), "w"), indent=1)
